@@ -4,9 +4,12 @@ the *name-shape* domain.
 
 An attribute name is abstracted as a sequence of segments
     ('lit', text) | ('dig', k)
-where ('dig', k) stands for *every* decimal rendering `f"{i:02d}"` of the k-th group index
-(two or more digits, value = the symbolic index i_k >= 1).  One abstract run therefore covers
-all names of a shape (KEY, depth) at once.  Integers are concrete ints or ('digval', k).
+where ('dig', k, n) stands for *every* n-digit decimal rendering `f"{i:02d}"` of the k-th group index
+(n = 2: indices 1..99, n = 3: indices 100..999; value = the symbolic index i_k).  One abstract run
+therefore covers all names of a shape (KEY, depth, digit lengths) at once.  Integers are concrete ints
+or ('digval', k, n).  Regular-expression helpers are applied to a *representative* of the shape whose
+digit groups are distinct marker digit strings and mapped back; this is exact because a pattern without
+literal digits cannot tell one digit from another (patterns with literal digits are undecided).
 Operations whose result cannot be represented exactly return TOP and the caller reports
 *undecided*; nothing from the analysed package is imported or executed - the interpreter walks
 the helper's AST.
@@ -66,7 +69,7 @@ class AStr:
         return AStr(self.segs + o.segs).norm()
 
     def show(self):
-        return "".join(s[1] if s[0] == "lit" else (f"<i{s[1]}:02d>" if s[0] == "dig" else f"<{s[1]} chars of the index suffix>") for s in self.segs)
+        return "".join(s[1] if s[0] == "lit" else (f"<i{s[1]}:{s[2]} digits>" if s[0] == "dig" else f"<{s[1]} chars of the index suffix>") for s in self.segs)
 
     def contains_char(self, c):
         """True / False / None(unknown)."""
@@ -84,12 +87,103 @@ class TableVal:
     proj: tuple = ()
 
 
-def name_shape(key: str, depth: int) -> AStr:
+def name_shape(key: str, depth: int, lens=None) -> AStr:
     segs = [("lit", key)]
     for k in range(depth):
         segs.append(("lit", "_"))
-        segs.append(("dig", k))
+        segs.append(("dig", k, (lens[k] if lens else 2)))
     return AStr(tuple(segs)).norm()
+
+
+_MARKS = {2: ["97", "86", "75", "64"], 3: ["135", "204", "315", "402"]}  # no marker is a substring of another
+
+
+def _concretise(a: AStr):
+    """-> (text, {marker: seg}) or None when a marker would be ambiguous."""
+    lit = "".join(s[1] for s in a.segs if s[0] == "lit")
+    out, back = [], {}
+    for s in a.segs:
+        if s[0] == "lit":
+            out.append(s[1])
+        elif s[0] == "dig":
+            m = next((x for x in _MARKS.get(s[2], []) if x not in lit and x not in back), None)
+            if m is None:
+                return None
+            back[m] = s
+            out.append(m)
+        else:
+            return None
+    return "".join(out), back
+
+
+def _abstract(text: str, back: dict, orig_lit: str):
+    """Map a representative string back to segments; None if a marker was cut."""
+    segs, i = [], 0
+    while i < len(text):
+        hit = next((m for m in sorted(back, key=len, reverse=True) if text.startswith(m, i)), None)
+        if hit:
+            segs.append(back[hit])
+            i += len(hit)
+        else:
+            segs.append(("lit", text[i]))
+            i += 1
+    res = AStr(tuple(segs)).norm()
+    # any marker digit left over in literal text means a digit group was cut in two
+    leftovers = "".join(s[1] for s in res.segs if s[0] == "lit")
+    for m in back:
+        for ch in m:
+            if leftovers.count(ch) > orig_lit.count(ch):
+                return None
+    return res
+
+
+def _pattern_digit_agnostic(pat: str) -> bool:
+    import re._parser as sp
+
+    try:
+        tree = sp.parse(pat)
+    except Exception:
+        return False
+
+    def walk(items):
+        for op, av in items:
+            name = str(op)
+            if name == "LITERAL" or name == "NOT_LITERAL":
+                if chr(av).isdigit():
+                    return False
+            elif name == "IN":
+                for o2, a2 in av:
+                    n2 = str(o2)
+                    if n2 == "LITERAL" and chr(a2).isdigit():
+                        return False
+                    if n2 == "RANGE":
+                        lo, hi = a2
+                        digs = [c for c in "0123456789" if lo <= ord(c) <= hi]
+                        if 0 < len(digs) < 10:
+                            return False
+            elif name in ("MAX_REPEAT", "MIN_REPEAT", "POSSESSIVE_REPEAT"):
+                if not walk(av[2]):
+                    return False
+            elif name == "SUBPATTERN":
+                if not walk(av[3]):
+                    return False
+            elif name == "BRANCH":
+                for alt in av[1]:
+                    if not walk(alt):
+                        return False
+            elif name in ("ASSERT", "ASSERT_NOT", "ATOMIC_GROUP"):
+                if not walk(av[1] if name != "ATOMIC_GROUP" else av):
+                    return False
+        return True
+
+    return walk(tree)
+
+
+class AMatch:
+    """Abstract re.Match: groups mapped back to shapes."""
+
+    def __init__(self, groups):
+        self.groups_ = groups  # list of AStr | None, index 0 = whole match
 
 
 class StrAI:
@@ -215,6 +309,8 @@ class StrAI:
             return True  # index >= 1
         if isinstance(v, TableVal):
             raise Undecided("truth of table value")
+        if isinstance(v, AMatch):
+            return True
         return bool(v)
 
     def ev(self, e, env):
@@ -301,13 +397,60 @@ class StrAI:
             return out
         raise Undecided(f"expression {type(e).__name__}")
 
+    def regex(self, fn, args):
+        import re
+
+        if fn not in ("sub", "match", "search", "fullmatch") or len(args) < 2:
+            raise Undecided(f"re.{fn}")
+        pat = args[0]
+        if not (isinstance(pat, AStr) and pat.is_lit()):
+            raise Undecided("non-constant pattern")
+        pat = pat.text()
+        subj = args[2] if fn == "sub" else args[1]
+        if not isinstance(subj, AStr):
+            raise Undecided("regex subject")
+        if not _pattern_digit_agnostic(pat):
+            raise Undecided(f"pattern {pat!r} distinguishes digits")
+        conc = _concretise(subj.norm())
+        if conc is None:
+            raise Undecided("cannot build a representative")
+        text, back = conc
+        lit = "".join(x[1] for x in subj.segs if x[0] == "lit")
+        if fn == "sub":
+            repl = args[1]
+            if not (isinstance(repl, AStr) and repl.is_lit()) or "\\" in repl.text() or any(ch.isdigit() for ch in repl.text()):
+                raise Undecided("replacement")
+            count = args[3] if len(args) > 3 else 0
+            if not isinstance(count, int):
+                raise Undecided("count")
+            res = _abstract(re.sub(pat, repl.text(), text, count=count), back, lit + repl.text())
+            if res is None:
+                raise Undecided("substitution cuts a digit group")
+            return res
+        mo = getattr(re, fn)(pat, text)
+        if mo is None:
+            return None
+        groups = []
+        for i in range(0, (mo.re.groups or 0) + 1):
+            g = mo.group(i)
+            if g is None:
+                groups.append(None)
+            else:
+                a = _abstract(g, back, lit)
+                if a is None:
+                    raise Undecided("match cuts a digit group")
+                groups.append(a)
+        return AMatch(groups)
+
     def fmt(self, val, spec):
         if isinstance(val, AStr) and spec in ("", "s"):
             return val
         if isinstance(val, int) and not isinstance(val, bool) and spec is not None:
             return AStr.lit(format(val, spec))
-        if isinstance(val, tuple) and val and val[0] == "digval" and spec == "02d":
-            return AStr((("dig", val[1]),))
+        if isinstance(val, tuple) and val and val[0] == "digval" and spec in ("02d", "d", "") and val[2] >= 2:
+            return AStr((("dig", val[1], val[2]),))
+        if isinstance(val, tuple) and val and val[0] == "digval" and spec == "03d" and val[2] == 3:
+            return AStr((("dig", val[1], val[2]),))
         raise Undecided(f"format {val!r}:{spec}")
 
     def binop(self, op, a, b):
@@ -364,7 +507,7 @@ class StrAI:
         import re
 
         def rx(x):
-            return "".join(re.escape(s[1]) if s[0] == "lit" else r"\d{2,}" for s in x.segs)
+            return "".join(re.escape(s[1]) if s[0] == "lit" else r"\d{%d}" % s[2] for s in x.segs)
 
         if a.is_lit():
             return re.fullmatch(rx(b), a.text()) is not None
@@ -380,7 +523,7 @@ class StrAI:
                     return item.text() in tab
                 import re
 
-                rx = "".join(re.escape(s[1]) if s[0] == "lit" else r"\d{2,}" for s in item.segs)
+                rx = "".join(re.escape(s[1]) if s[0] == "lit" else r"\d{%d}" % s[2] for s in item.segs)
                 hits = [k for k in tab if isinstance(k, str) and re.fullmatch(rx, k)]
                 if not hits:
                     return False
@@ -479,9 +622,20 @@ class StrAI:
         args = [self.ev(a, env) for a in e.args]
         if e.keywords:
             raise Undecided("keyword arguments")
+        if isinstance(f, ast.Attribute) and isinstance(f.value, ast.Name) and f.value.id == "re" and "re" not in env:
+            return self.regex(f.attr, args)
         if isinstance(f, ast.Attribute):
             recv = self.ev(f.value, env)
             m = f.attr
+            if isinstance(recv, AMatch):
+                if m == "group":
+                    idx = args[0] if args else 0
+                    if not isinstance(idx, int) or idx >= len(recv.groups_):
+                        raise Undecided("match group")
+                    return recv.groups_[idx]
+                if m == "groups":
+                    return tuple(recv.groups_[1:])
+                raise Undecided(f"match method {m}")
             if isinstance(recv, AStr):
                 if m in ("split", "rsplit"):
                     if not args or not (isinstance(args[0], AStr) and args[0].is_lit() and len(args[0].text()) == 1):
@@ -585,7 +739,7 @@ class StrAI:
                         except ValueError:
                             raise AbstractRaise("ValueError", f"int({v.text()!r})") from None
                     if len(v.segs) == 1 and v.segs[0][0] == "dig":
-                        return ("digval", v.segs[0][1])
+                        return ("digval", v.segs[0][1], v.segs[0][2])
                     if any(s[0] == "lit" and not s[1].isdigit() for s in v.segs):
                         raise AbstractRaise("ValueError", f"int({v.show()})")
                 raise Undecided("int()")
